@@ -120,7 +120,14 @@
 //!              `Doc::Typed` (tuple binds whose branches all leave the fn)
 //!   stage 11   (netcode client, token generation) `vec.into_iter()`; or-patterns inside tuple patterns (distributed);
 //!              randomness parameters threaded through callers (`ConnectToken::generate` → `NetcodeClient::new`)
-//!   not supported: `loop`, valued `break`, closures other than the pure `map` / `or_insert_with` ones, generics, traits, signed integers, floats,
+//!   stage 12   (renet_netcode transports) cross-crate `use` resolution (`IMPORTS` / `OWNERS` / `CRATES`); the builtin model
+//!              type `UdpSocket` (`recv_from`, `send_to`, `set_nonblocking`, model-only `pending`), `&UdpSocket` threaded
+//!              as state; `io::ErrorKind` / `e.kind()`; `loop {}` = `while true` (manifest fuel); local closures inlined
+//!              at their call sites (`Cx::local_closures`); guards on a call scrutinee (fresh `scrut_<k>`), consecutive
+//!              same-pattern guarded arms → one if-else chain; `Cx::range_capture` (`let x = match .. { .. => &mut
+//!              p[a..b], .. }`); `.into()` / `?` through selected `From` impls; `Result::unwrap()`; `break` / `continue`
+//!              in value position
+//!   not supported: valued `break`, closures other than the pure `map` / `or_insert_with` ones, generics, traits, signed integers, floats,
 //!              references stored in data, `ref mut`, `&mut` parameters other than `self`, unsigned integers and the
 //!              octets / io cursors.
 
